@@ -64,6 +64,9 @@ pub struct InvokeSpec {
     /// always pass -f even for build.ninja
     pub explicit_f: bool,
     pub argv0_ninja: bool,
+    /// spelling of the -f argument: 0 as is, 1 "./name", 2 "zz/../name"
+    #[serde(default)]
+    pub f_spelling: u8,
     pub faults: Faults,
 }
 
@@ -81,6 +84,7 @@ impl InvokeSpec {
             use_c: false,
             explicit_f: false,
             argv0_ninja: false,
+            f_spelling: 0,
             faults: Faults::default(),
         }
     }
@@ -111,7 +115,7 @@ pub enum Op {
     /// move output number `idx` (modulo the implicit outputs) of `from` to step `to`
     MoveOut { from: usize, to: usize, #[serde(default)] idx: usize },
     /// add an output to a step
-    AddOut { step: usize, name: String },
+    AddOut { step: usize, name: String, #[serde(default)] front: bool },
     SetPoolDepth { pool: usize, depth: usize },
     SetDefaults { defaults: Vec<String> },
     DeleteDb,
@@ -284,6 +288,9 @@ impl Profile {
             }
             "C08big" => {
                 f.name = "C08big";
+            }
+            "C07big" => {
+                f.name = "C07big";
             }
             "C09" => {
                 f.name = "C09";
@@ -489,6 +496,7 @@ pub fn gen_project(r: &mut Rng, pf: &Profile) -> Project {
             hide_success: false,
             removed: false,
             generator: false,
+            touches: None,
         });
     }
     let allouts: Vec<(usize, String)> = steps
@@ -562,6 +570,26 @@ pub fn gen_project(r: &mut Rng, pf: &Profile) -> Project {
         let via = g.clone();
         if !steps[k].exp.contains(&via) && !steps[k].imp.contains(&via) && !steps[k].oo.contains(&via) {
             steps[k].oo.push(via);
+        }
+    }
+    // Meson-like steps: a private declared input, or a private header found through a
+    // private source, is touched by the command itself on every run
+    for k in 0..n {
+        if steps[k].phony || !r.pct(8) {
+            continue;
+        }
+        if steps[k].depmode != 0 && r.pct(60) {
+            let h = format!("priv{}.h", k);
+            let c = format!("psrc{}", k);
+            srcs.push(Src { name: h.clone(), ver: 0, incs: vec![], soft: false, exists: true, tag: String::new(), mg: false });
+            srcs.push(Src { name: c.clone(), ver: 0, incs: vec![h.clone()], soft: false, exists: true, tag: String::new(), mg: false });
+            steps[k].imp.push(c);
+            steps[k].touches = Some(h);
+        } else {
+            let c = format!("psrc{}", k);
+            srcs.push(Src { name: c.clone(), ver: 0, incs: vec![], soft: false, exists: true, tag: String::new(), mg: false });
+            steps[k].imp.push(c.clone());
+            steps[k].touches = Some(c);
         }
     }
     let mut defaults = Vec::new();
@@ -664,7 +692,7 @@ pub fn apply_abstract(p: &mut Project, op: &Op) -> bool {
             false
         }
         Op::ToggleInc { src, inc } => {
-            if *src >= p.srcs.len() || p.src(inc).is_none() || &p.srcs[*src].name == inc || inc.starts_with("gsrc") {
+            if *src >= p.srcs.len() || p.src(inc).is_none() || &p.srcs[*src].name == inc || inc.starts_with("gsrc") || inc.starts_with("psrc") || inc.starts_with("priv") || p.srcs[*src].name.starts_with("psrc") || p.srcs[*src].name.starts_with("priv") {
                 return false;
             }
             // keep the include graph acyclic: only towards higher indices
@@ -766,14 +794,19 @@ pub fn apply_abstract(p: &mut Project, op: &Op) -> bool {
             }
             true
         }
-        Op::AddOut { step, name } => {
+        Op::AddOut { step, name, front } => {
             if *step >= p.steps.len() || p.steps[*step].removed || p.steps[*step].phony || p.steps[*step].generator {
                 return false;
             }
             if p.producer(name).is_some() || p.src(name).is_some() {
                 return false;
             }
-            p.steps[*step].outs.push(name.clone());
+            if *front {
+                p.steps[*step].outs.insert(0, name.clone());
+                p.steps[*step].nexp += 1;
+            } else {
+                p.steps[*step].outs.push(name.clone());
+            }
             true
         }
         Op::SetPoolDepth { pool, depth } => {
@@ -881,6 +914,7 @@ fn gen_invoke(r: &mut Rng, p: &Project, pf: &Profile, sub: u64, stale: &[String]
         use_c: r.pct(pf.use_c_pct),
         explicit_f: r.pct(20),
         argv0_ninja: r.pct(5),
+        f_spelling: if r.pct(30) { 1 + r.below(2) as u8 } else { 0 },
         faults: f,
     }
 }
@@ -925,6 +959,7 @@ fn gen_edit(r: &mut Rng, p: &Project, pf: &Profile, next_id: &mut usize) -> Opti
                     .srcs
                     .iter()
                     .map(|x| x.name.clone())
+                    .filter(|n| !n.starts_with("psrc") && !n.starts_with("priv"))
                     .chain(real_outs.iter().cloned())
                     .collect();
                 let a = cands[r.below(cands.len())].clone();
@@ -947,6 +982,7 @@ fn gen_edit(r: &mut Rng, p: &Project, pf: &Profile, next_id: &mut usize) -> Opti
                         hide_success: false,
                         removed: false,
                         generator: false,
+                        touches: None,
                     },
                     pos: r.below(p.order.len() + 1),
                 }
@@ -973,7 +1009,7 @@ fn gen_edit(r: &mut Rng, p: &Project, pf: &Profile, next_id: &mut usize) -> Opti
             _ => {
                 let id = *next_id;
                 *next_id += 1;
-                Op::AddOut { step: r.below(nsteps), name: format!("x{}", id) }
+                Op::AddOut { step: r.below(nsteps), name: format!("x{}", id), front: r.pct(35) }
             }
         });
     }
@@ -1028,8 +1064,9 @@ fn add_generator(p: &mut Project, r: &mut Rng) {
     let id = 900;
     let mut imp = vec![];
     // share an input with user targets sometimes
-    if r.pct(40) && !p.srcs.is_empty() {
-        imp.push(p.srcs[r.below(p.srcs.len())].name.clone());
+    let shareable: Vec<String> = p.srcs.iter().map(|s| s.name.clone()).filter(|n| !n.starts_with("psrc") && !n.starts_with("priv")).collect();
+    if r.pct(40) && !shareable.is_empty() {
+        imp.push(shareable[r.below(shareable.len())].clone());
     }
     let mut oo = vec![];
     if r.pct(25) {
@@ -1057,6 +1094,7 @@ fn add_generator(p: &mut Project, r: &mut Rng) {
         hide_success: false,
         removed: false,
         generator: true,
+        touches: None,
     });
     let idx = p.steps.len() - 1;
     let pos = r.below(p.order.len() + 1);
@@ -1066,6 +1104,9 @@ fn add_generator(p: &mut Project, r: &mut Rng) {
 pub fn gen_scenario(seed: u64, pf: &Profile) -> Scenario {
     if pf.name == "C08big" {
         return crate::bigshape::gen_bigshape(seed);
+    }
+    if pf.name == "C07big" {
+        return crate::bigshape::gen_c07big(seed);
     }
     let root = Rng::new(seed);
     let mut r = root.sub(1, 1);
